@@ -622,7 +622,12 @@ impl Range {
 
         let content_range_is_not_parsed = content_range.size.len() == 0;
         if string.starts_with(Header::_CONTENT_RANGE) && content_range_is_not_parsed {
-            let content_range_header = Response::_parse_http_response_header_string(string.as_str());
+            let boxed_content_range_header = Response::parse_http_response_header_string(string.as_str());
+            if boxed_content_range_header.is_err() {
+                let message = boxed_content_range_header.err().unwrap();
+                return Err(message);
+            }
+            let content_range_header = boxed_content_range_header.unwrap();
 
             let boxed_result = Range::_parse_content_range_header_value(content_range_header.value);
             if boxed_result.is_ok() {
